@@ -3,44 +3,63 @@
 
 def classify(case):
     """Key of the one recorded finding: a kernel-switching undo (SetNextBoot with BootWithoutTry for a revision other
-    than the one kernel.efi points to) cut by a power loss right after its modeenv write, i.e. after exactly one
-    write, in a UC20 history whose observed trace then reaches the initramfs dead end. Any other failing history is
-    reported as a violation."""
+    than the one kernel.efi / snap_kernel points to) cut right after its modeenv write, i.e. after exactly one write --
+    by a power loss, or by a snapd restart that is followed by a reboot before the undo has been re-run -- in a UC20
+    history whose observed trace then reaches the initramfs dead end FROM THAT VERY STATE (same kernel pointer, same
+    current_kernels). Any other failing history is reported as a violation."""
+    import re
     i = case.get("input") or {}
     if i.get("cfg") not in ("uc20", "ns20"):
         return None
     obs = case.get("observed") or []
     if "ODead" not in obs:
         return None
-    # the dead end must come right after such a cut undo: find the action index of the first ODead
     dead_at = obs.index("ODead")
     acts_before = [o for o in obs[:dead_at] if isinstance(o, str) and o.startswith("OAct ")]
     if len(acts_before) < 2:
         return None
     coq = case.get("coq") or ""
-    # effective actions are printed in the Coq term, in order
-    import re
-    m = re.search(r"\(Case20 \S+ \S+ \S+ \[(.*?)\] \[", coq, re.S)
+    m = re.search(r"\(Case20 \S+ \S+ \S+ \[(.*?)\] \[", coq, re.S)   # effective actions, in order
     if not m:
         return None
     acts = [a.strip() for a in m.group(1).split(";")]
     boot_idx = len(acts_before) - 1          # the ABoot during which the dead end is observed
     if boot_idx < 1 or boot_idx >= len(acts) or not acts[boot_idx].startswith("ABoot"):
         return None
-    prev = acts[boot_idx - 1]
-    if re.fullmatch(r"AOp \(SetK \d+%N true\) \(Some 1%nat\)", prev):
-        # the undo must really have been the kernel-switching kind: its single completed write was the modeenv
-        # (current_kernels reduced to the undo target) while kernel.efi still names another revision
-        seg = obs[obs.index("OAct %d%%N" % (boot_idx - 1)) + 1: obs.index("OAct %d%%N" % boot_idx)]
-        states = [o for o in seg if o.startswith("OS ")]
-        if len(states) == 1:
-            s = states[0]
-            kl = re.search(r"kl := (\d+)%N", s).group(1)
-            ck = re.search(r"m_ck := \[(.*?)\]", s).group(1)
-            tgt = re.search(r"SetK (\d+)%N", prev).group(1)
-            if ck.strip() == tgt + "%N" and kl != tgt:
-                return "undo-kernel-switch-crash-after-modeenv"
-    return None
+
+    def seg_states(j):
+        lo = obs.index("OAct %d%%N" % j) + 1
+        hi = obs.index("OAct %d%%N" % (j + 1))
+        return [o for o in obs[lo:hi] if o.startswith("OS ")]
+
+    def kl_ck(s):
+        return (re.search(r"kl := (\d+)%N", s).group(1), re.search(r"m_ck := \[(.*?)\]", s).group(1).strip())
+
+    # walk back over operations that ran after a RESTART-cut undo in the same boot and left (kernel pointer,
+    # current_kernels) untouched; a power-loss cut must be immediately followed by the boot
+    j = boot_idx - 1
+    between = []
+    while j >= 0 and not re.fullmatch(r"AOpR? \(SetK \d+%N true\) (\(Some 1%nat\)|1%nat)", acts[j]):
+        if not acts[j].startswith("AOp"):
+            return None
+        between.append(j)
+        j -= 1
+    if j < 0:
+        return None
+    undo = acts[j]
+    if undo.startswith("AOp (") and between:
+        return None
+    states = seg_states(j)
+    if len(states) != 1:
+        return None
+    kl, ck = kl_ck(states[0])
+    tgt = re.search(r"SetK (\d+)%N", undo).group(1)
+    if not (ck == tgt + "%N" and kl != tgt):
+        return None
+    for q in between:
+        if any(kl_ck(s) != (kl, ck) for s in seg_states(q)):
+            return None
+    return "undo-kernel-switch-crash-after-modeenv"
 
 
 SPEC = dict(
